@@ -543,3 +543,28 @@ free piece:
 +--------+-------+-------------+-----------------------------------+
 ```
 */
+
+/// verification hook: layout probe of the value piece.
+#[cfg(feature = "abyssiniandb_verif")]
+pub mod verif {
+    use super::*;
+    /// calls `f(len, size_field_len, piece_len, slot_size)` for every value length
+    /// `max_len`, `max_len - 1`, ..., `0` with the crate's own sizing code.
+    pub fn value_layout_sweep(max_len: usize, f: &mut dyn FnMut(usize, u32, u32, u32)) {
+        let piece_mgr = PieceMgr::new(&REC_SIZE_FREE_OFFSET, &REC_SIZE_ARY);
+        let mut piece = ValuePiece {
+            value: vec![0u8; max_len],
+            ..Default::default()
+        };
+        loop {
+            let len = piece.value.len();
+            let (encorded_piece_len, piece_len, _value_len) = piece.encoded_piece_size();
+            let slot = piece_mgr.roundup(ValuePieceSize::new(encorded_piece_len + piece_len));
+            f(len, encorded_piece_len, piece_len, slot.as_value());
+            if len == 0 {
+                break;
+            }
+            piece.value.truncate(len - 1);
+        }
+    }
+}
